@@ -331,6 +331,15 @@ def run_key(c) -> tuple:
                 kd = RSAKey.import_key({m: v for m, v in full.items() if m != "d"})
             except Exception:
                 kd = None
+            # an RSA private JWK that carries the private exponent only (no CRT members, RFC 7518 6.3.2 lets a producer omit them)
+            try:
+                kc = RSAKey.import_key({m: v for m, v in full.items() if m in ("kty", "n", "e", "d")}, _params(c["params"]))
+            except Exception:
+                kc = None
+            if kc is not None:
+                add("public-dict", lambda: kc.as_dict(private=False))
+                add("keyset-public", lambda: KeySet([kc]).as_dict(private=False))
+                add("pem-public", lambda: kc.as_pem(private=False))
             if kd is not None:
                 add("public-key-default-export", lambda: kd.as_dict())
                 add("keyset-public", lambda: KeySet([kd]).as_dict(private=False))
